@@ -143,6 +143,9 @@ def _fixed(o, tier):
               'r2': {'cls': 'rectangle', 'center': p(-2.0, 1.0), 'width': 1.0, 'height': 3.0,
                      'angle': K.angle_spec(0.0), 'adeg': 0.0}}
     out = [{'cls': 'circle', 'center': p(0.0, 0.0), 'radius': 1.0},
+           # operands whose own box is empty along an axis (a point on a pixel edge, an axis-parallel line on a pixel edge)
+           {'cls': 'point', 'center': p(6.5, -3.0)},
+           {'cls': 'line', 'start': p(-5.0, 4.5), 'end': p(-2.25, 4.5)},
            {'cls': 'rectangle', 'center': p(0.5, 0.25), 'width': 2.0, 'height': 1.0, 'angle': K.angle_spec(0.0), 'adeg': 0.0},
            {'cls': 'ellipse', 'center': p(5.125, -4.75), 'width': 2.0, 'height': 1.0, 'angle': K.angle_spec(60.0), 'adeg': 60.0},
            {'cls': 'line', 'start': p(-1.5, -2.0), 'end': p(4.0, 0.5)},
